@@ -109,7 +109,7 @@ class Cell:
         self.header_flavour = rng.choice(["plain", "plain", "non-ascii", "rich", "empty-strings"])
         self.decoy = rng.random() < 0.5   # a second key of another type in a key set of one
         self.payload_as = "str" if rng.random() < 0.25 else "bytes"
-        self.token_as = "bytes" if rng.random() < 0.3 else "str"    # compact tokens are accepted as str and as bytes
+        self.token_as = rng.choice(["bytes", "bytes", "bytearray"]) if rng.random() < 0.35 else "str"    # compact tokens are accepted as str and as bytes
 
     def desc(self):
         return {"alg": self.alg, "form": self.form, "b64": self.b64, "placement": self.placement, "key_given": self.key_given,
@@ -218,7 +218,9 @@ def consume(p: Produced, token=None):
     tok = p.token if token is None else token
     vkey = p.giver(p.vkeys)
     if cell.form == "compact":
-        arg = tok.encode("utf-8") if (cell.token_as == "bytes" and isinstance(tok, str)) else tok
+        arg = tok
+        if isinstance(tok, str) and cell.token_as != "str":
+            arg = tok.encode("utf-8") if cell.token_as == "bytes" else bytearray(tok.encode("utf-8"))   # bytearray: tolerated through bytes(x)
         if cell.b64 == "absent":
             return call(j.jws.deserialize_compact, arg, vkey, algorithms=p.allow)
         detached = p.payload if tok.split(".")[1] == "" else None
